@@ -183,6 +183,24 @@ Theorem C03x_weights_are_the_specifications_at_every_loop_head :
       (forall sl u v, In sl (s_in s) -> In u (gnodes g) -> In v (gadj g u) -> wgt sl [u; v] = spec_weight g true (sl_tr sl) [u; v]).
 Proof. exact (simple_exec_weights g Hg ic rstat tmin tmax full). Qed.
 
+(* ---- the property's law clause at EVERY loop head of EVERY run: the selection is a probability
+   distribution (total mass 1) over the enabled (transition, actor) pairs, each listed once, and
+   the mass of a pair is rate * (the specification's weight of the actor) / total rate -- "chosen
+   with probability rate/total rate", nothing else has positive mass ---- *)
+Theorem C03x_step_law_at_every_loop_head :
+  forall sortable spont induced fuel ds out tr,
+  Forall (sp_tr_ok g) spont -> Forall (in_tr_ok g) induced ->
+  exec (simple g sortable spont induced ic rstat tmin tmax full fuel) ds [] = (Ok out, tr) ->
+  exists sp inn l1 l2 t' s',
+    tr = l1 ++ l2 /\ srun g rstat tmax full tmin (start g ic rstat tmin sp inn) l1 t' s' /\
+    finish g ic rstat tmin full s' = Ok out /\
+    forall l t s, srun g rstat tmax full tmin (start g ic rstat tmin sp inn) l t s -> 0 < total_rate s ->
+      SInv g s /\ mass (law (select s)) == 1 /\ NoDup (map fst (law (select s))) /\
+      forall i a q, In ((i, a), q) (law (select s)) ->
+        exists sl, nth_error (slots s) i = Some sl /\ sabs sl a <> None /\
+          q == tr_rate (sl_tr sl) * spec_weight g (negb (Nat.ltb i (length (s_sp s)))) (sl_tr sl) a / total_rate s.
+Proof. exact (simple_exec_law g Hg ic rstat tmin tmax full). Qed.
+
 End C03x.
 
 (* ---- non-vacuity: the weighted SIS-like specification of Props/C03.v on the path 0-1-2 meets
@@ -218,4 +236,5 @@ Print Assumptions C03x_log_times.
 Print Assumptions C03x_log_chronological.
 Print Assumptions C03x_fuel_suffices.
 Print Assumptions C03x_weights_are_the_specifications_at_every_loop_head.
+Print Assumptions C03x_step_law_at_every_loop_head.
 Print Assumptions C03x_example.
